@@ -628,6 +628,11 @@ func runC10Client(c *ev.Case, ctx *lib.Ctx, seq []int, allByIdx bool, peerStopsR
 				state = "ok"
 			} else if k == qCEAbad {
 				state = "closed"
+			} else if k == qDWR && peerStopsReading {
+				// the answer to this DWR cannot be written: the reader is stuck in that write
+				// until the dial times out and closes; what is buffered behind it - a success
+				// CEA included - arrives on a connection the client has given up
+				state = "gave-up"
 			}
 		}
 	}
@@ -827,14 +832,17 @@ func TestC10(t *testing.T) {
 		run(c, func() { runC10Client(c, ctx, seq, c.I%2 == 0, false) })
 	})
 	rec.Exhaustive("client-exhaustive")
-	// the same replies from a peer that stops reading once it has the CER (sequences without a
-	// success CEA: the dial fails - by the refusal, or by the time-out while the reader is stuck
-	// in a write - and what is still buffered then belongs to a connection that never completed
-	// the exchange)
+	// the same replies from a peer that stops reading once it has the CER (sequences in which no
+	// success CEA comes before the first DWR: the dial fails - by the refusal, or by the time-out
+	// while the reader is stuck writing the DWA - and what is still buffered then, a late success
+	// CEA included, belongs to a connection that never completed the exchange)
 	var stuck [][]int
 	for _, q := range cseqs {
 		ok := false
 		for _, k := range q {
+			if k == qDWR {
+				break // the reader is stuck answering this one: a CEA behind it comes too late
+			}
 			ok = ok || k == qCEAok
 		}
 		if !ok {
